@@ -15,7 +15,9 @@ LEVEL = "exploration"
 RULE = ("the real Motor.program inside a real FastSyncGroup over a motor "
         "terminal (16-bit velocity output, 32-bit encoder, two switch bits, "
         "enable bit; own declarations and the bundled EL7041 with the layout "
-        "its PDO assignment yields), loaded into the kernel and executed with "
+        "its PDO assignment yields; in some shards the Motor object first ran "
+        "alone in an earlier group and was regrouped behind another "
+        "terminal), loaded into the kernel and executed with "
         "BPF_PROG_TEST_RUN (reference machine on a sample); inputs: cross "
         "product of boundary classes per input (0, +-1, the limits, limits "
         "+-1, 16/32-bit extremes) x switch states x enable, seeded random "
@@ -39,7 +41,8 @@ def plan(tier, seed):
     # shards 2, 3 and the upper half drive the bundled motor terminal
     # (EL7041 with its own process-data declarations)
     return [dict(seed=seed, shard=i, n=n, cross=(i < 4), part=i,
-                 bundled=(i in (2, 3) or i >= 10))
+                 bundled=(i in (2, 3) or i >= 10),
+                 regrouped=(i in (1, 3, 7, 8, 12, 13)))
             for i in range(16)]
 
 
@@ -87,6 +90,23 @@ def devices_bundled(ec):
     m.high_switch = t.high_switch
     m.enable = t.enable
     return [m], [t]
+
+
+def regrouped(inner):
+    """the same Motor object ran alone in an earlier fast group (program
+    generated for that frame layout) and is then put into a new group with
+    an input terminal in front of the motor terminal on the bus"""
+    def fn(ec):
+        from ebpfcat.ebpfcat import FastSyncGroup
+        devs, terms = inner(ec)
+        sg0 = FastSyncGroup(ec, devs)
+        sg0.allocate()
+        sg0.assemble()
+        t0, v0 = ecat.make_terminal(ec, 1, [("H",), ("I",)], [],
+                                    use_fmmu=False)
+        a = D.AnalogInput(v0[SyncManager.IN, 0])
+        return devs + [a], terms + [t0]
+    return fn
 
 
 def law(target, pos, gain, acc, vmax, prev, low, high):
@@ -158,8 +178,11 @@ def run_shard(params):
     rng = random.Random(params["seed"] * 100363 + params["shard"])
     with kern.session() as sess:
         bundled = params.get("bundled")
-        rig = fastrig.FastRig(sess, devices_bundled if bundled
-                              else devices_fn)
+        dfn = devices_bundled if bundled else devices_fn
+        if params.get("regrouped"):
+            dfn = regrouped(dfn)
+            res.count("regrouped_motor_shards")
+        rig = fastrig.FastRig(sess, dfn)
         (lB, lb), (hB, hb), poff, (eB, eb), voff = \
             EL7041_LAYOUT if bundled else OWN_LAYOUT
         res.count("bundled_terminal_shards" if bundled
@@ -251,6 +274,7 @@ def finalize(res, tier, seed):
     c = res.counters
     for k in ("acceleration_clamp_active", "velocity_clamp_active",
               "switch_blocks", "bundled_terminal_shards",
+              "regrouped_motor_shards",
               "own_terminal_shards"):
         if not c.get(k):
             res.inconc(f"{k}: never exercised")
